@@ -439,7 +439,7 @@ pub fn run(check: &dyn Check, cli: &Cli) -> i32 {
 
 fn class_of(check: &dyn Check, f: &Failure) -> String {
     // Hangs are reported under the property being checked.
-    if f.found.class == "deadlock" || f.found.class == "step-bound" {
+    if f.found.class == "deadlock" || f.found.class == "step-bound" || f.found.class == "library-panic" {
         format!("{}.{}", check.id(), f.found.class)
     } else {
         f.found.class.clone()
@@ -609,14 +609,20 @@ fn process_failure(check: &dyn Check, cli: &Cli, keys: &Keys, r: &UnitRun, f: &F
         vcommon::harness_error(&format!("cannot write {}: {e}", path.display()));
     }
 
-    // 4. it must reproduce from the file, in a fresh process.
-    confirm_in_fresh_process(check.id(), &path);
+    // 4. it must reproduce from the file, in a fresh process. A failure that was observed but
+    // does not replay (code under test that corrupts shared memory is not deterministic) is
+    // still a violation; the report says that its replay is unconfirmed.
+    let (confirmed, _) = try_confirm_in_fresh_process(check.id(), &path);
+    let mut detail = cur.found.detail.clone();
+    if !confirmed {
+        detail.push_str(" [observed in the batch; its replay file did not reproduce in a fresh process]");
+    }
 
     Violation {
         property: check.id().to_string(),
         class,
         sig: cur.found.sig.clone(),
-        detail: cur.found.detail.clone(),
+        detail,
         seed: r.seed,
         replay: path,
     }
@@ -695,6 +701,14 @@ fn replay_crash(check: &dyn Check, cli: &Cli, doc: &Value, file: &Path) -> i32 {
 }
 
 pub fn confirm_in_fresh_process(property: &str, path: &Path) {
+    if !try_confirm_in_fresh_process(property, path).0 {
+        let (_, why) = try_confirm_in_fresh_process(property, path);
+        vcommon::harness_error(&why);
+    }
+}
+
+/// Replays `path` in a fresh process; `(confirmed, explanation)`.
+pub fn try_confirm_in_fresh_process(property: &str, path: &Path) -> (bool, String) {
     let exe = std::env::current_exe().unwrap_or_else(|e| vcommon::harness_error(&format!("current_exe: {e}")));
     let out = std::process::Command::new(exe)
         .args(["--property", property, "--replay"])
@@ -704,13 +718,12 @@ pub fn confirm_in_fresh_process(property: &str, path: &Path) {
         .unwrap_or_else(|e| vcommon::harness_error(&format!("cannot spawn replay: {e}")));
     let text = String::from_utf8_lossy(&out.stdout);
     if out.status.code() != Some(1) && !text.contains("KNOWN-FINDING") {
-        vcommon::harness_error(&format!(
-            "replay {} did not reproduce in a fresh process (exit {:?}): {}",
-            path.display(),
-            out.status.code(),
-            text.trim()
-        ));
+        return (
+            false,
+            format!("replay {} did not reproduce in a fresh process (exit {:?}): {}", path.display(), out.status.code(), text.trim()),
+        );
     }
+    (true, String::new())
 }
 
 fn replay(check: &dyn Check, cli: &Cli, file: &PathBuf) -> i32 {
